@@ -36,7 +36,7 @@ Diverge(what) ==
   /\ UNCHANGED <<vars, run, expv, cnt>>
 \* cnt counts, per action of module Ticket, how many recorded events were explained by it (coverage of the model
 \* by the executions of the real crate; an action that is never matched was never exercised in the code)
-CntNames == {"runs", "results", "Reserve", "Pub", "LoadY", "Chk", "LoadC", "LenLoadC", "LenLoadR", "SkipStoreR",
+CntNames == {"runs", "results", "DropElem", "Reserve", "Pub", "LoadY", "Chk", "LoadC", "LenLoadC", "LenLoadR", "SkipStoreR",
              "SetC", "SkipStoreC", "PGuard", "Enter", "SeqEnter", "Exit", "SeqExit"}
 Matched(name) == /\ l' = l + 1
                  /\ cnt' = [cnt EXCEPT ![name] = @ + 1]
@@ -53,13 +53,40 @@ TReset ==
   /\ UNCHANGED div
 
 TIgnored == l <= N /\ E.e # "Reset" /\ ign /\ Skip
-TOther == l <= N /\ ~ign /\ E.e \in {"Mem", "SrcCheck", "DropElem", "CloneElem", "Partial", "End", "HintRead"} /\ Skip
+TOther == /\ l <= N /\ ~ign
+          /\ \/ E.e \in {"Mem", "SrcCheck", "CloneElem", "Partial", "End", "HintRead"}
+             \/ (E.e = "DropElem" /\ ~OwnApplies)
+          /\ Skip
+
+\* owning elements: every destructor the machinery runs is the one the model predicted next for the step in progress;
+\* between calls the only destructors are those of the leftovers of the thread's buffered iterator, which the
+\* harness drops at the end of the thread's program (in slot order)
+TDropElem ==
+  /\ IsEvent("DropElem") /\ ~ign /\ OwnApplies
+  /\ IF own.expd[E.t] # << >> /\ Head(own.expd[E.t]) = E.id
+       THEN /\ own' = [own EXCEPT !.expd[E.t] = Tail(@)]
+            /\ l' = l + 1
+            /\ cnt' = [cnt EXCEPT !["DropElem"] = @ + 1]
+            /\ UNCHANGED <<cf, reserved, yielded, completed, taken, noneSeen, calls, alive, pc, op, tk, got, polled, left, res, buf, nops, mon, hb, h, run, ign, expv, div>>
+     ELSE IF own.expd[E.t] = << >> /\ pc[E.t] \in {"idle", "done"} /\ Leftovers(own.slots[E.t]) # << >>
+             /\ cf.base + Head(Leftovers(own.slots[E.t])) = E.id
+       THEN /\ LET sl == own.slots[E.t]
+                    j == CHOOSE i \in 1..Len(sl) : sl[i] # -1 /\ \A i2 \in 1..(i - 1) : sl[i2] = -1 IN
+               own' = [own EXCEPT !.slots[E.t] = [sl EXCEPT ![j] = -1]]
+            /\ mon' = MDropElem(mon, E.id, TRUE)
+            /\ l' = l + 1
+            /\ cnt' = [cnt EXCEPT !["DropElem"] = @ + 1]
+            /\ UNCHANGED <<cf, reserved, yielded, completed, taken, noneSeen, calls, alive, pc, op, tk, got, polled, left, res, buf, nops, hb, h, run, ign, expv, div>>
+     ELSE Diverge("drop")
 TStop == /\ l <= N /\ ~ign /\ E.e \in {"Hang", "Abort"}
          /\ l' = l + 1 /\ ign' = TRUE /\ UNCHANGED <<vars, run, expv, div, cnt>>
 
 TCall ==
   /\ IsEvent("Call") /\ ~ign
-  /\ LET o == [k |-> E.op, n |-> W(E.n), take |-> E.take] IN
+  /\ LET o == [k |-> E.op, n |-> W(E.n), take |-> E.take,
+               \* the client discards the rest of the chunk through the chunk iterator (the harness does so only
+               \* when it stopped taking before the chunk reported its end)
+               fin |-> (E.op = "bnext" /\ "via" \in DOMAIN E /\ E.via >= 4 /\ E.take # -1)] IN
      \* low-level calls, panicking closures and requests of 2^63 and more (the model's word is MOD) are not modelled here
      IF E.op \notin Supported \/ E.pa > 0 \/ E.n >= 1000000000
        THEN l' = l + 1 /\ ign' = TRUE /\ UNCHANGED <<vars, run, expv, div, cnt>>
@@ -146,7 +173,7 @@ SameRes(m, r) ==
 
 TRet ==
   /\ IsEvent("Ret") /\ ~ign
-  /\ IF pc[E.t] = "ret" /\ (expv[E.t] = << >> \/ res[E.t].k = "panic") /\ SameRes(res[E.t], E.res)
+  /\ IF pc[E.t] = "ret" /\ (expv[E.t] = << >> \/ res[E.t].k = "panic") /\ own.expd[E.t] = << >> /\ SameRes(res[E.t], E.res)
        THEN /\ Ret(E.t)
             /\ expv' = [expv EXCEPT ![E.t] = << >>]
             /\ l' = l + 1
@@ -161,7 +188,7 @@ TInit ==
   /\ div = {}
   /\ cnt = [k \in CntNames |-> 0]
 
-TNext == TReset \/ TIgnored \/ TOther \/ TStop \/ TCall \/ TAtomic \/ TNextEnter \/ TNextExit \/ TVisit \/ TRet
+TNext == TReset \/ TIgnored \/ TOther \/ TDropElem \/ TStop \/ TCall \/ TAtomic \/ TNextEnter \/ TNextExit \/ TVisit \/ TRet
 TSpec == TInit /\ [][TNext]_allvars
 
 Publish == TLCSet(1, div) /\ TLCSet(2, l) /\ TLCSet(3, cnt)
